@@ -317,7 +317,9 @@ class ComposedNode(ConfigNode):
                     possibly_new_child = child.ayns.on_merge(path + [key], value)
 
                     if merge:
-                        if not possibly_new_child and not possibly_new_child.ayns.has_priority_over(value) and value.ayns.explicit_delete:
+                        # (emptied by an empty deleting value: for a function node truthiness tells whether a target is set, not whether any child is left)
+                        emptied = not possibly_new_child or (not value and isinstance(possibly_new_child, ComposedNode) and not possibly_new_child.ayns.children_count())
+                        if emptied and not possibly_new_child.ayns.has_priority_over(value) and value.ayns.explicit_delete:
                             removed.append(key)
                         elif possibly_new_child is not child:
                             self.ayns.set_child(key, possibly_new_child)
